@@ -3,7 +3,7 @@
     Proofs/Poly_Proofs.v.  Carrier: Coq reals. *)
 From Coq Require Import Reals QArith Qreals List ZArith.
 From Coquelicot Require Import Coquelicot.
-From SB Require Import Base.Num Gen.Generated Model.Poly Spec.BezierSpec Proofs.Poly_Proofs.
+From SB Require Import Base.Num Gen.Generated Model.Poly Spec.BezierSpec Model.RootCert Proofs.Poly_Proofs Proofs.RootCert_Proofs.
 Import ListNotations.
 Local Open Scope R_scope.
 
@@ -69,3 +69,32 @@ Print Assumptions Q_instance_agrees.
 Example bezier_example :
   horner ROps (make_bezier ROps 2 [0; 3; 3; 6]) 1 = 3.
 Proof. exact Poly_Proofs.bezier_example. Qed.
+
+(** ---- root finding: the certificates used as the oracle are sound ---- *)
+Definition reval (cs : list Q) (x : R) : R := horner ROps (map Q2R cs) x.
+
+(** every real root within the Cauchy bound lies in one of the boxes *)
+Theorem root_boxes_complete : forall depth cs lo hi x,
+  Q2R lo <= x <= Q2R hi -> reval cs x = 0 ->
+  exists a b, In (a, b) (root_boxes depth cs lo hi) /\ Q2R a <= x <= Q2R b.
+Proof. exact RootCert_Proofs.root_boxes_complete. Qed.
+Print Assumptions root_boxes_complete.
+
+(** outside the Cauchy bound a polynomial with non-zero leading coefficient has no root *)
+Theorem cauchy_bound_sound : forall cs x, cs <> [] -> ~ (last cs 0 == 0)%Q ->
+  reval cs x = 0 -> Rabs x <= Q2R (cauchy_bound cs).
+Proof. exact RootCert_Proofs.cauchy_bound_sound. Qed.
+Print Assumptions cauchy_bound_sound.
+
+(** degree <= 2 closed forms of the code (over the reals): every real solution
+    and nothing else *)
+Theorem solve_linear_exact : forall a b y x, a <> 0 -> (a * x + b = y <-> x = (y - b) / a).
+Proof. exact RootCert_Proofs.solve_linear_exact. Qed.
+Print Assumptions solve_linear_exact.
+
+Theorem solve_quadratic_exact : forall a b c x, a <> 0 ->
+  let d := b * b - 4 * a * c in
+  (a * x * x + b * x + c = 0 <->
+   (0 <= d /\ (x = (- b - sqrt d) / (2 * a) \/ x = (- b + sqrt d) / (2 * a)))).
+Proof. exact RootCert_Proofs.solve_quadratic_exact. Qed.
+Print Assumptions solve_quadratic_exact.
